@@ -50,6 +50,8 @@ func bfindLanguage(lang string) int {
 }
 
 func subtagMatches(langStr string, subtag string) bool {
+	// the needles of upstream start with the '-' which anchors the start of the subtag
+	subtag = "-" + subtag
 	LS := len(subtag)
 	if len(langStr) < LS {
 		return false
